@@ -189,6 +189,18 @@ def oracle(run, corr, deep, prop, profiles, n_quick, n_thorough, extra_lines=())
     return found
 
 
+def _sched_still_fails(w, a):
+    parts = a.split(" | ")
+    fwd, calls, stale, excs, _, _ = _parse_race(parts[0].split(" ; ")[-1])
+    if excs:
+        return True
+    st = parts[2].split(" # ")
+    if w.get("racing_op") == "poweroff":
+        # any transceiver that is not running must have an empty queue
+        return any(x.split()[0] == "R0" and x.split()[-1] != "q-" for x in st[:-1])
+    return "vanished" in w["what"] or "outside" in w["what"] or "more transmissions" in w["what"]
+
+
 def replay(run, path, prop):
     rp = json.load(open(path))
     bad = 0
@@ -196,6 +208,12 @@ def replay(run, path, prop):
         w = v.get("witness")
         if not w or "history" not in w:
             print("replay: no concrete input recorded: %s" % json.dumps(v.get("broken"))[:500])
+            continue
+        if w.get("kind") == "schedule":
+            a = vf.run_lines([vf.PY, SCHED_HARNESS, vf.TRX], [w["history"]])[0]
+            print("replay schedule (boundary %s of %s, racing %s): %s" % (w.get("boundary"), w.get("of"), w.get("racing_op"), a[-700:]))
+            print("  recorded failure: %s  -- compare the observations above" % w["what"])
+            bad += 1 if ("EXC:" in a or w["what"]) and _sched_still_fails(w, a) else 0
             continue
         j = judge(run, [w["history"]], prop)
         print("replay %s: %s" % (prop, json.dumps(describe(w["history"]))[:1500]))
@@ -323,4 +341,142 @@ def c14_oracle(run, corr, deep, n_quick=120, n_thorough=3000):
     corr.distribution["oracle(C14): session pairs (with / without malformed datagrams)"] = len(pairs)
     for k, v in kinds.items():
         corr.distribution["oracle(C14): malformed datagrams: " + k] = v
+    return found
+
+
+# ---------------------------------------------------------------------------- C03 schedules
+
+SCHED_HARNESS = os.path.join(vf.ROOT, "harness/py/sched_harness.py")
+
+
+def _cmd(i, text, port=5801):
+    return "C %d %d %s" % (i, port, text.encode().hex())
+
+
+def _burst(fn, ver=0, tn=0, n=148, rng=None):
+    bits = bytes(rng.randint(0, 1) for _ in range(n)) if rng else bytes(n)
+    return bytes([(ver << 4) | tn]) + fn.to_bytes(4, "big") + b"\x00" + bits
+
+
+def sched_scenarios(rng, n):
+    """(setup ops, race op text, info) — bursts are queued only on transceiver `j`"""
+    H = worldgen.H
+    out = []
+    for _ in range(n):
+        j = rng.choice([0, 1])
+        k = 1 - j
+        ver = rng.choice([0, 0, 1])
+        fn0 = rng.choice([rng.randrange(1, H - 3), H - 1, H - 2, 0, 101, 102])
+        ops = []
+        for i, (rx, tx) in ((0, (900000, 945000)), (1, (945000, 900000))):
+            ops += [_cmd(i, "CMD RXTUNE %d\0" % rx), _cmd(i, "CMD TXTUNE %d\0" % tx)]
+            if i == j and ver:
+                ops.append(_cmd(i, "CMD SETFORMAT 1\0"))
+            if i == k and rng.random() < 0.5:
+                ops.append(_cmd(i, "CMD SETFORMAT 1\0"))
+            ops.append(_cmd(i, "CMD POWERON\0"))
+        ops.append("J %d" % fn0)
+        fns = []
+        for d in rng.sample([0, 0, -1, -2, 1, 2, 3], rng.randint(1, 4)):
+            f = (fn0 + d) % H
+            fns.append(f)
+            ops.append("D %d %s" % (j, _burst(f, ver, rng.randint(0, 7), 148, rng).hex()))
+        kind = rng.choice(["arrival", "arrival", "poweroff", "poweroff-peer", "setformat", "mute", "drop"])
+        if kind == "arrival":
+            f = (fn0 + rng.choice([0, 0, 1, -1, 2])) % H
+            race = "D %d %s" % (j, _burst(f, ver, rng.randint(0, 7), 148, rng).hex())
+            info = {"kind": kind, "fn": f}
+        elif kind == "poweroff":
+            race, info = _cmd(j, "CMD POWEROFF\0"), {"kind": kind}
+        elif kind == "poweroff-peer":
+            race, info = _cmd(k, "CMD POWEROFF\0"), {"kind": kind}
+        elif kind == "setformat":
+            race, info = _cmd(j, "CMD SETFORMAT %d\0" % (1 - ver)), {"kind": kind}
+        elif kind == "mute":
+            race, info = _cmd(rng.choice([j, k]), "CMD RFMUTE 1\0"), {"kind": kind}
+        else:
+            race, info = _cmd(k, "CMD FAKE_DROP 2\0"), {"kind": kind}
+        info.update({"j": j, "fn0": fn0, "queued": fns, "ver": ver})
+        out.append((ops, race, info))
+    return out
+
+
+def _parse_race(obs):
+    fwd, calls, stale, excs, points, dg = [], [], 0, [], 0, 0
+    for it in obs.strip().split(","):
+        if it.startswith("fwd:"):
+            f = it.split(":")
+            fwd.append((int(f[1]), int(f[2]), int(f[3])))
+        elif it.startswith("call:"):
+            calls.append(it)
+        elif it.startswith("stale:"):
+            stale = int(it[6:])
+        elif it.startswith("EXC:"):
+            excs.append(it[4:])
+        elif it.startswith("points:"):
+            points = int(it[7:])
+        elif ">" in it:
+            dg += 1
+    return fwd, calls, stale, excs, points, dg
+
+
+def sched_oracle(run, corr, deep, n_quick=25, n_thorough=400):
+    """every interleaving position of ONE socket-thread operation against ONE tick, on the real objects:
+    no exception in either thread; bursts are forwarded only in their own frame and at most once;
+    without a power-off of the sender nothing vanishes (accepted = forwarded + stale + still queued);
+    after a power-off of the sender its queue is empty."""
+    n = run.scale(n_quick, n_thorough) * (3 if deep else 1)
+    H = worldgen.H
+    scen = sched_scenarios(random.Random(run.seed * 31 + 7), n)
+    head = "sched.run 0 - | "
+    probe = [head + " ; ".join(ops + ["R 9999 " + race]) for ops, race, _ in scen]
+    ans = vf.run_lines([vf.PY, SCHED_HARNESS, vf.TRX], probe)
+    lines, meta = [], []
+    for (ops, race, info), a in zip(scen, ans):
+        if a.startswith(("cfgerr", "HARNESS")):
+            raise vf.HarnessError("schedule harness: %s" % a[:300])
+        pts = _parse_race(a.split(" | ")[0].split(" ; ")[-1])[4]
+        for k in range(pts + 1):
+            lines.append(head + " ; ".join(ops + ["R %d %s" % (k, race)]))
+            meta.append((info, k, pts))
+    ans = vf.run_lines([vf.PY, SCHED_HARNESS, vf.TRX], lines)
+    found = 0
+    for l, a, (info, k, pts) in zip(lines, ans, meta):
+        parts = a.split(" | ")
+        fwd, calls, stale, excs, _, _ = _parse_race(parts[0].split(" ; ")[-1])
+        st = parts[2].split(" # ")
+        j = info["j"]
+        f = st[j].split()
+        q = f[-1][1:]
+        qend = 0 if q == "-" else len(q.split("/"))
+        running = f[0] == "R1"
+        fn0 = info["fn0"]
+        acc = list(info["queued"]) + ([info["fn"]] if info["kind"] == "arrival" else [])
+        w = None
+        if excs:
+            w = "exception %s while the operation raced the tick" % excs
+        elif any(s != j or bfn != tfn or tfn != fn0 for (s, bfn, tfn) in fwd):
+            w = "a burst was put on the air outside its own frame: %s (tick %d)" % (fwd, fn0)
+        elif len(fwd) > sum(1 for x in acc if x == fn0):
+            w = "more transmissions (%d) than bursts due in frame %d (%d)" % (len(fwd), fn0, sum(1 for x in acc if x == fn0))
+        elif info["kind"] == "poweroff":
+            if qend != 0 or running:
+                w = "after POWEROFF the transceiver still holds %d queued burst(s) (running=%s)" % (qend, running)
+        else:
+            if len(fwd) + stale + qend != len(acc):
+                w = "a burst vanished or was duplicated: accepted %d = forwarded %d + stale %d + queued %d does not hold" % (
+                    len(acc), len(fwd), stale, qend)
+            elif len(fwd) < sum(1 for x in info["queued"] if x == fn0):
+                w = "a burst queued before the tick for frame %d was not transmitted in it" % fn0
+        if w is not None:
+            found += run.report_witness({"kind": "schedule", "property": "C03", "what": w, "boundary": k, "of": pts,
+                                         "racing_op": info["kind"], "history": l, "readable": describe(l.replace("R %d " % k, ""))})
+            if found >= 3:
+                break
+    corr.distribution["oracle(C03): race scenarios"] = len(scen)
+    corr.distribution["oracle(C03): schedules replayed on the real objects (one op x one tick, every boundary)"] = len(lines)
+    kinds = {}
+    for _, _, i in scen:
+        kinds[i["kind"]] = kinds.get(i["kind"], 0) + 1
+    corr.distribution["oracle(C03): racing operations"] = kinds
     return found
